@@ -60,6 +60,9 @@ func keyOf(v string) string {
 	if _, err := fmt.Sscanf(v, "v%d", &n); err == nil && n%3 == 0 {
 		return ""
 	}
+	if n%5 == 2 {
+		return "-" // stands for the empty index key: indexed, under a key of length 0
+	}
 	return "k" + v
 }
 
@@ -122,10 +125,14 @@ func openStore(dir, prefix string) (*badger.DB, *badgerstore.Store, *badgerstore
 	qs := badgerstore.NewQueryStore(st, func(qs *badgerstore.QueryStore, q url.Values) (*badgerstore.IndexQuery, error) {
 		return &badgerstore.IndexQuery{Index: qs.Index("k"), Limit: -1}, nil
 	}).AddIndex(badgerstore.Index{Name: "k", Key: func(v interface{}) []byte {
-		if k := v.(val).K; k != "" {
+		switch k := v.(val).K; k {
+		case "":
+			return nil
+		case "-":
+			return []byte{} // an empty key is a key
+		default:
 			return []byte(k)
 		}
-		return nil
 	}})
 	return db, st, qs, nil
 }
@@ -447,6 +454,9 @@ func oneRun(rs runSpec) (rec, error) {
 	var ents []ent
 	for _, o := range obs2 {
 		if k := storedKey[o[0]]; k != "" {
+			if k == "-" {
+				k = ""
+			}
 			ents = append(ents, ent{k, o[0]})
 		}
 	}
